@@ -91,6 +91,7 @@ Hypothesis Hw : forall t m text, P (SWrite t m text).
 Hypothesis Hs : forall lv incr n body, Forall P body -> P (SScope lv incr n body).
 Hypothesis Hr : P SRaise.
 Hypothesis Ht : forall body, Forall P body -> P (STry body).
+Hypothesis Hi : forall body, Forall P body -> P (SInSection body).
 Fixpoint stmt_ind' (s : stmt) : P s :=
   match s with
   | SWrite t m text => Hw t m text
@@ -100,6 +101,9 @@ Fixpoint stmt_ind' (s : stmt) : P s :=
   | SRaise => Hr
   | STry body =>
     Ht body ((fix go (l : list stmt) : Forall P l :=
+                match l with [] => Forall_nil P | x :: r => Forall_cons x (stmt_ind' x) (go r) end) body)
+  | SInSection body =>
+    Hi body ((fix go (l : list stmt) : Forall P l :=
                 match l with [] => Forall_nil P | x :: r => Forall_cons x (stmt_ind' x) (go r) end) body)
   end.
 End StmtInd.
@@ -125,6 +129,17 @@ Proof.
   now rewrite H.
 Qed.
 
+Lemma exec_insection body st :
+  exec (SInSection body) st = let '(st', raised) := exec_list body (in_sections st) in (out_sections st st', raised).
+Proof.
+  cbn [exec].
+  assert (forall l s0, (fix run (l : list stmt) (st0 : iost) {struct l} : iost * bool :=
+            match l with [] => (st0, false) | x :: r => let '(st', raised) := exec x st0 in if raised then (st', true) else run r st' end) l s0
+          = exec_list l s0) as H.
+  { induction l as [|x r IH]; intros s0; cbn [exec_list]; [reflexivity|]. destruct (exec x s0) as [st' [|]]; [reflexivity|apply IH]. }
+  now rewrite H.
+Qed.
+
 Definition indents (st : iost) : Z * Z := (o_indent (io_out st), o_indent (io_err st)).
 
 Lemma do_write_indent o m s o' : do_write o m s = Ok o' -> o_indent o' = o_indent o.
@@ -139,7 +154,8 @@ Qed.
 (* whatever a statement does - and however it is left - the indentation that held before it holds after it *)
 Lemma exec_keeps_indents s : forall st, indents (fst (exec s st)) = indents st.
 Proof.
-  induction s as [t m text|lv incr n body IH| |body IH] using stmt_ind'; intros st.
+  induction s as [t m text|lv incr n body IH| |body IH|body IH] using stmt_ind'; intros st.
+  5: { rewrite exec_insection. destruct (exec_list body (in_sections st)) as [st' r]. reflexivity. }
   - cbn [exec]. destruct t.
     + destruct (do_write (io_out st) m text) as [o|e] eqn:E; [|reflexivity]. unfold indents. cbn. now rewrite (do_write_indent _ _ _ _ E).
     + destruct (do_write (io_err st) m text) as [o|e] eqn:E; [|reflexivity]. unfold indents. cbn. now rewrite (do_write_indent _ _ _ _ E).
@@ -180,6 +196,7 @@ Fixpoint lexec (s : stmt) (env : Z * Z) (st : iost) : iost * bool :=
   | SScope lv incr n body => run body (env_enter lv incr n env) st
   | SRaise => (st, true)
   | STry body => let '(st', _) := run body env st in (st', false)
+  | SInSection body => let '(st', raised) := run body env (in_sections st) in (out_sections st st', raised)
   end.
 Fixpoint lexec_list (l : list stmt) (env : Z * Z) (st : iost) : iost * bool :=
   match l with
@@ -224,7 +241,21 @@ Proof. destruct a as [o e]. unfold sbi, scope_exit, set_env. destruct lv; reflex
 Lemma lexical_lemma s : forall a b, sbi a b ->
   let '(a', r1) := exec s a in let '(b', r2) := lexec s (indents a) b in r1 = r2 /\ sbi a' b'.
 Proof.
-  induction s as [t m text|lv incr n body IH| |body IH] using stmt_ind'; intros a b Hab.
+  induction s as [t m text|lv incr n body IH| |body IH|body IH] using stmt_ind'; intros a b Hab.
+  5: { (* the body runs on the sections of both outputs: same indentations, then back to the outputs *)
+    rewrite exec_insection. cbn [lexec]. rewrite lexec_run.
+    assert (forall a0 b0, sbi a0 b0 -> indents a0 = indents a ->
+              let '(a1, r1) := exec_list body a0 in let '(b1, r2) := lexec_list body (indents a) b0 in r1 = r2 /\ sbi a1 b1) as HL.
+    { clear - IH. induction IH as [|x r Hx Hr IHr]; intros a0 b0 H0 He; cbn [exec_list lexec_list]; [split; [reflexivity|exact H0]|].
+      specialize (Hx a0 b0 H0). rewrite He in Hx. pose proof (exec_keeps_indents x a0) as HK.
+      destruct (exec x a0) as [a1 r1], (lexec x (indents a) b0) as [b1 r2]. destruct Hx as [-> H1]. cbn [fst] in HK.
+      destruct r2; [split; [reflexivity|exact H1]|]. apply IHr; [exact H1|congruence]. }
+    assert (sbi (in_sections a) (in_sections b)) as Hs.
+    { unfold sbi, set_env, in_sections, as_section in *. cbn in *. inversion Hab. reflexivity. }
+    specialize (HL (in_sections a) (in_sections b) Hs eq_refl).
+    destruct (exec_list body (in_sections a)) as [a1 r1], (lexec_list body (indents a) (in_sections b)) as [b1 r2].
+    destruct HL as [-> H1]. split; [reflexivity|].
+    unfold sbi, set_env, out_sections, leave_section in *. cbn in *. inversion Hab. inversion H1. reflexivity. }
   - cbn [lexec]. rewrite <- (sbi_env a b Hab), set_env_same. destruct (exec (SWrite t m text) a) as [a' r]. split; reflexivity.
   - rewrite exec_scope. cbn [lexec]. rewrite lexec_run, scope_enter_env.
     set (env' := env_enter lv incr n (indents a)).
@@ -258,4 +289,44 @@ Proof.
   pose proof (lexical_lemma x a b Hab) as Hx. pose proof (exec_keeps_indents x a) as HK.
   destruct (exec x a) as [a1 r1], (lexec x (indents a) b) as [b1 r2]. destruct Hx as [-> H1]. cbn [fst] in HK.
   destruct r2; [split; [reflexivity|exact H1]|]. rewrite <- HK. apply IH, H1.
+Qed.
+
+(* ---------- write_line is write and exactly one more line feed ---------- *)
+(* the text as it goes to the formatter: indented when the output has an indentation *)
+Definition line_shown (o : outp) (s : str) : str := if (0 <? o_indent o)%Z then indent_text (o_indent o) s else s.
+Definition line_render (o : outp) (f : formatter) (s : str) : res (formatter * str) :=
+  if o_on o then format f (line_shown o s) None else remove_format f (line_shown o s).
+Definition buf_push (o : outp) (f : formatter) (b : str) : outp := with_buf o f (o_buf o ++ b).
+
+(* on every output that is not a decorated section: write_line succeeds exactly when write does, and leaves exactly what
+   write leaves followed by ONE line feed (same formatter state, same indentation) *)
+Lemma write_line_is_write_nl o s : o_sec o && o_on o = false ->
+  do_write o WWriteLine s = (do o1 <- do_write o WWrite s; Ok (buf_push o1 (o_fmt o1) [NL])).
+Proof.
+  intros Hs. unfold do_write, write. rewrite Hs. cbn [bind orb].
+  cbn [with_buf o_indent o_on o_sec o_fmt o_buf].
+  match goal with |- (do x <- ?F; _) = _ => destruct F as [x|e]; cbn [bind]; [|reflexivity] end.
+  unfold buf_push, with_buf. cbn [o_indent o_on o_sec o_fmt o_buf]. now rewrite app_nil_r, <- app_assoc.
+Qed.
+(* a decorated section ends the line whichever of the two is called: write and write_line are the same call *)
+Lemma section_write_is_write_line o s : o_sec o && o_on o = true -> do_write o WWrite s = do_write o WWriteLine s.
+Proof. intros Hs. unfold do_write, write. rewrite Hs. reflexivity. Qed.
+(* what write_line emits, in full: the (indented) text as the formatter renders it, then one line feed *)
+Lemma write_line_body o s o' : o_sec o && o_on o = false -> do_write o WWriteLine s = Ok o' ->
+  exists f' out, line_render o (o_fmt o) s = Ok (f', out) /\ o' = buf_push o f' (out ++ [NL]).
+Proof.
+  intros Hs. unfold do_write, write, line_render, line_shown. rewrite Hs. cbn [bind orb andb].
+  cbn [with_buf o_indent o_on o_sec o_fmt o_buf]. rewrite Bool.andb_true_r.
+  destruct (o_on o);
+    match goal with |- (do x <- ?F; _) = _ -> _ => destruct F as [[f' out]|e]; cbn [bind fst snd]; [|discriminate] end;
+    intros H; inversion H; eexists _, _; (split; [reflexivity|]); reflexivity.
+Qed.
+Lemma section_write_line_body o s o' : o_sec o && o_on o = true -> do_write o WWriteLine s = Ok o' ->
+  exists f0 f' out, add_content_effect o s = Ok f0 /\ format f0 (line_shown o s) None = Ok (f', out) /\ o' = buf_push o f' (out ++ [NL]).
+Proof.
+  intros Hs H. apply Bool.andb_true_iff in Hs as [H1 H2]. unfold do_write, write in H. rewrite H1, H2 in H. cbn [andb orb] in H.
+  destruct (add_content_effect o s) as [f0|e]; cbn [bind] in H; [|discriminate].
+  cbn [with_buf o_indent o_on o_sec o_fmt o_buf] in H. rewrite H2, Bool.andb_true_r in H. cbv iota in H. fold (line_shown o s) in H.
+  destruct (format f0 (line_shown o s) None) as [[f' out]|e] eqn:EF; cbn [bind fst snd] in H; [|discriminate].
+  inversion H. exists f0, f', out. split; [reflexivity|]. split; [exact EF|]. unfold buf_push, with_buf. cbn. now rewrite H1, H2.
 Qed.
